@@ -69,11 +69,7 @@ func replaceMatchers(selectors matcherHeap, expr *parser.Expr) {
 
 			// Drop filters which are already present as matchers in the replacement selector.
 			for _, s := range replacement {
-				for _, f := range filters {
-					if s.Name == f.Name && s.Value == f.Value && s.Type == f.Type {
-						filters = dropMatcher(f.Name, filters)
-					}
-				}
+				filters = dropEqualMatcher(s, filters)
 			}
 			e.LabelMatchers = replacement
 			*node = &FilteredSelector{
@@ -98,12 +94,19 @@ func dropMatcher(matcherName string, originalMatchers []*labels.Matcher) []*labe
 	return originalMatchers
 }
 
-func matcherToMap(matchers []*labels.Matcher) map[string]*labels.Matcher {
-	r := make(map[string]*labels.Matcher, len(matchers))
-	for i := 0; i < len(matchers); i++ {
-		r[matchers[i].Name] = matchers[i]
+// dropEqualMatcher removes the matchers that are equal to m (same name, type and value).
+// Other matchers on the same label are kept.
+func dropEqualMatcher(m *labels.Matcher, originalMatchers []*labels.Matcher) []*labels.Matcher {
+	i := 0
+	for i < len(originalMatchers) {
+		l := originalMatchers[i]
+		if l.Name == m.Name && l.Type == m.Type && l.Value == m.Value {
+			originalMatchers = append(originalMatchers[:i], originalMatchers[i+1:]...)
+		} else {
+			i++
+		}
 	}
-	return r
+	return originalMatchers
 }
 
 // matcherHeap is a set of the most selective label matchers
@@ -133,22 +136,24 @@ func (m matcherHeap) findReplacement(metricName string, matcher []*labels.Matche
 		return nil, false
 	}
 
-	matcherSet := matcherToMap(matcher)
-	topSet := matcherToMap(top)
-	for k, v := range topSet {
-		m, ok := matcherSet[k]
-		if !ok {
-			return nil, false
+	// Every matcher of the top selector has to be one of the input matchers.
+	// Matchers are compared one by one: a label name can occur more than once.
+	for _, v := range top {
+		found := false
+		for _, m := range matcher {
+			equals := v.Name == m.Name && v.Type == m.Type && v.Value == m.Value
+			if equals {
+				found = true
+				break
+			}
 		}
-
-		equals := v.Name == m.Name && v.Type == m.Type && v.Value == m.Value
-		if !equals {
+		if !found {
 			return nil, false
 		}
 	}
 
 	// The top matcher and input matcher are equal. No replacement needed.
-	if len(topSet) == len(matcherSet) {
+	if len(top) == len(matcher) {
 		return nil, false
 	}
 
